@@ -299,7 +299,7 @@ Fixpoint toks_of (e : sx) {struct e} : list rtok :=
   | X OpCapture _ [x] => (ROpen "(" :: toks_of x ++ [ROp 41])%list
   | X OpGroupWithFlags _ [x; fl] => (ROpen ("(?" ++ sx_val fl ++ ":") :: toks_of x ++ [ROp 41])%list
   | X OpNamedCapture v [x; nm] => (ROpen (named_open v (sx_val nm)) :: toks_of x ++ [ROp 41])%list
-  | X OpFlagOnlyGroup _ [fl] => [RFlagOnly ("(?" ++ sx_val fl ++ ")")]
+  | X OpFlagOnlyGroup v _ => [RFlagOnly v]
   | X _ v _ => [RLit (TChar v)]
   end.
 
